@@ -28,7 +28,7 @@ def constraint_violating_binding(b):
     """a failed soundness law whose substitution binds some metavariable of the (expanded) pattern to a pattern that
     does not satisfy the freshness / polarity constraints that metavariable declares"""
     a = b['python']
-    if not (b['request'].startswith('law-match-sound') and '(binds' in a):
+    if not (b['request'].startswith(('law-match-sound', 'law-matchlist-sound')) and '(binds' in a):
         return False
     try:
         x = sx.parse(a)[0]
@@ -93,6 +93,14 @@ def run(rep):
         laws.append(f'law-match-sound {sx.pat_to_s(pany)} {sx.pat_to_s(q)} {gen.delta_to_s(seed)}')
         laws.append(f'law-match-sound {sx.pat_to_s(p)} {sx.pat_to_s(inst)} {gen.delta_to_s(seed)}')
         laws.append(f'law-match-complete {sx.pat_to_s(p)} {gen.delta_to_s(theta)}')
+        # the list form: equations that share metavariables, some with identical sides (p = p binds p's metavariables to
+        # themselves), in random order; any answer must satisfy every equation
+        eqs = [(p, inst), (q, q), (pany, q)]
+        if rng.random() < 0.5:
+            eqs.append((p, p))
+        rng.shuffle(eqs)
+        eqs = eqs[:rng.choice((2, 3, 4))]
+        laws.append('law-matchlist-sound (%s)' % ' '.join('(%s %s)' % (sx.pat_to_s(a), sx.pat_to_s(b)) for a, b in eqs))
     for label, arity, body, _, _ in nots:
         for _ in range(6 if quick else 60):
             args = [gen.gen_npat(rng, rng.choice((0, 1, 2))) for _ in range(arity)]
